@@ -73,7 +73,7 @@ CHECKS = {
  "C12": dict(
    technique="property-based testing: metamorphic relation over four configurations (Strict/SemiStrict/Lenient/Chainable renders of the same generated program), plus complete enumeration of the documented site x mode matrix",
    level="exploration",
-   text="Generated programs (free-mode and a mostly-well-typed generator that plants undefined operands in every operand position) are rendered under the four undefined behaviours with a recording context; success under a stricter mode must imply success with byte-identical output under every weaker mode. The documented matrix (print / iterate / truth test / attribute-or-item access / is defined / is undefined / default) is enumerated over 37 syntactic sites x 4 kinds of undefined operand x 4 modes.",
+   text="Generated programs (free-mode and a mostly-well-typed generator that plants undefined operands in every operand position) are rendered under the four undefined behaviours with a recording context; success under a stricter mode must imply success with byte-identical output under every weaker mode. The documented matrix (print / iterate / truth test / attribute-or-item access / is defined / is undefined / default) is enumerated over 40 syntactic sites x 4 kinds of undefined operand x 4 modes.",
    note="The matrix rows are language sites; individual filters are only covered by the monotonicity relation (their strict-mode behaviour differs between filters and is not documented). debug() is excluded.",
    design="3/C12"),
  "C13": dict(
